@@ -14,7 +14,7 @@ var zzGeneric = []string{"", "0", "-1", "1s", "x", "/"}
 // zzSetupTotal drives one directive's setup function with an arbitrary short token structure drawn
 // from that directive's own keyword vocabulary plus generic values: the setup must return (error
 // or nil) without panicking and within the instruction budget.
-func zzSetupTotal(dir string, keywords []string) {
+func zzSetupTotal(dir, pkg string, keywords []string) {
 	verifrt.Terminates()
 	verifrt.Budget(3000000)
 	verifrt.TolerateUnsupported()
@@ -24,7 +24,22 @@ func zzSetupTotal(dir string, keywords []string) {
 		return casketfile.Token{File: "Casketfile", Line: line, Text: text}
 	}
 	toks := []casketfile.Token{tok(1, dir)}
-	switch verifrt.Choose("shape", 5+verifrt.Tier()) {
+	// shapes 0..4 draw from the vocabulary; shape 5 puts, at one argument position, a string literal
+	// taken from the directive package's current code (or nothing) followed by 1 (2 thorough) arbitrary
+	// bytes -- prefixes, units and schemes the setup compares against, cut short or extended
+	switch verifrt.Choose("shape", 6+verifrt.Tier()) {
+	case 5:
+		d := verifrt.DictString("dict", pkg, 1+verifrt.Tier())
+		switch verifrt.Choose("dictpos", 3+verifrt.Tier()) {
+		case 0: // dir D
+			toks = append(toks, tok(1, d))
+		case 1: // dir / D
+			toks = append(toks, tok(1, "/"), tok(1, d))
+		case 2: // dir { \n D \n }
+			toks = append(toks, tok(1, "{"), tok(2, d), tok(3, "}"))
+		default: // thorough: dir / { \n K D \n }
+			toks = append(toks, tok(1, "/"), tok(1, "{"), tok(2, keywords[verifrt.Choose("k", len(keywords))]), tok(2, d), tok(3, "}"))
+		}
 	case 0: // dir
 	case 1: // dir T1 [T2]
 		toks = append(toks, tok(1, pick("t1")))
@@ -63,63 +78,63 @@ func zzSetupTotal(dir string, keywords []string) {
 	verifrt.Observe("setup", err != nil)
 }
 
-func VerifH11Basicauth() { zzSetupTotal("basicauth", []string{"exclude", "realm", "/", "user", "pw", "htpasswd=f"}) }
+func VerifH11Basicauth() { zzSetupTotal("basicauth", "github.com/tmpim/casket/caskethttp/basicauth", []string{"exclude", "realm", "/", "user", "pw", "htpasswd=f"}) }
 
-func VerifH11Bind() { zzSetupTotal("bind", []string{"127.0.0.1", "host"}) }
+func VerifH11Bind() { zzSetupTotal("bind", "github.com/tmpim/casket/caskethttp/bind", []string{"127.0.0.1", "host"}) }
 
-func VerifH11Browse() { zzSetupTotal("browse", []string{"buffer", "path", "servearchive", "tplfile", "/", "t.tpl", "zip", "tar", "0", "-1"}) }
+func VerifH11Browse() { zzSetupTotal("browse", "github.com/tmpim/casket/caskethttp/browse", []string{"buffer", "path", "servearchive", "tplfile", "/", "t.tpl", "zip", "tar", "0", "-1"}) }
 
-func VerifH11Errors() { zzSetupTotal("errors", []string{"*", "visible", "}", "404", "err.html", "log.txt", "syslog://h", "stdout", "rotate_size", "0"}) }
+func VerifH11Errors() { zzSetupTotal("errors", "github.com/tmpim/casket/caskethttp/errors", []string{"*", "visible", "}", "404", "err.html", "log.txt", "syslog://h", "stdout", "rotate_size", "0"}) }
 
-func VerifH11Expvar() { zzSetupTotal("expvar", []string{"/a"}) }
+func VerifH11Expvar() { zzSetupTotal("expvar", "github.com/tmpim/casket/caskethttp/expvar", []string{"/a"}) }
 
-func VerifH11Ext() { zzSetupTotal("ext", []string{".html", "html"}) }
+func VerifH11Ext() { zzSetupTotal("ext", "github.com/tmpim/casket/caskethttp/extensions", []string{".html", "html"}) }
 
-func VerifH11Fastcgi() { zzSetupTotal("fastcgi", []string{"connect_timeout", "env", "except", "ext", "index", "php", "read_timeout", "root", "send_timeout", "split", "upstream", "/", "127.0.0.1:9000", "unix:/s", "1s", "0", ".php", "K V", "pool", "2"}) }
+func VerifH11Fastcgi() { zzSetupTotal("fastcgi", "github.com/tmpim/casket/caskethttp/fastcgi", []string{"connect_timeout", "env", "except", "ext", "index", "php", "read_timeout", "root", "send_timeout", "split", "upstream", "/", "127.0.0.1:9000", "unix:/s", "1s", "0", ".php", "K V", "pool", "2"}) }
 
-func VerifH11Gzip() { zzSetupTotal("gzip", []string{"/", "ext", "level", "min_length", "not", ".txt", "*", "5", "0", "/a"}) }
+func VerifH11Gzip() { zzSetupTotal("gzip", "github.com/tmpim/casket/caskethttp/gzip", []string{"/", "ext", "level", "min_length", "not", ".txt", "*", "5", "0", "/a"}) }
 
-func VerifH11Header() { zzSetupTotal("header", []string{"/", "X-A", "v", "-X-A", "+X-A"}) }
+func VerifH11Header() { zzSetupTotal("header", "github.com/tmpim/casket/caskethttp/header", []string{"/", "X-A", "v", "-X-A", "+X-A"}) }
 
-func VerifH11Index() { zzSetupTotal("index", []string{"a.html"}) }
+func VerifH11Index() { zzSetupTotal("index", "github.com/tmpim/casket/caskethttp/index", []string{"a.html"}) }
 
-func VerifH11Internal() { zzSetupTotal("internal", []string{"/a", "a"}) }
+func VerifH11Internal() { zzSetupTotal("internal", "github.com/tmpim/casket/caskethttp/internalsrv", []string{"/a", "a"}) }
 
-func VerifH11Limits() { zzSetupTotal("limits", []string{"body", "header", "/a", "1kb", "0", "-1", "99999999999999999999"}) }
+func VerifH11Limits() { zzSetupTotal("limits", "github.com/tmpim/casket/caskethttp/limits", []string{"body", "header", "/a", "1kb", "0", "-1", "99999999999999999999"}) }
 
-func VerifH11Log() { zzSetupTotal("log", []string{"except", "ipmask", "/", "stdout", "stderr", "syslog", "f.log", "{common}", "255.255.0.0", "ffff::", "rotate_size", "1"}) }
+func VerifH11Log() { zzSetupTotal("log", "github.com/tmpim/casket/caskethttp/log", []string{"except", "ipmask", "/", "stdout", "stderr", "syslog", "f.log", "{common}", "255.255.0.0", "ffff::", "rotate_size", "1"}) }
 
-func VerifH11Markdown() { zzSetupTotal("markdown", []string{"css", "ext", "js", "template", "templatedir", "/", ".md", "a.css", "t.html", "name"}) }
+func VerifH11Markdown() { zzSetupTotal("markdown", "github.com/tmpim/casket/caskethttp/markdown", []string{"css", "ext", "js", "template", "templatedir", "/", ".md", "a.css", "t.html", "name"}) }
 
-func VerifH11Mime() { zzSetupTotal("mime", []string{"ext_defaults", ".txt", "text/plain", "txt"}) }
+func VerifH11Mime() { zzSetupTotal("mime", "github.com/tmpim/casket/caskethttp/mime", []string{"ext_defaults", ".txt", "text/plain", "txt"}) }
 
-func VerifH11On() { zzSetupTotal("on", []string{"startup", "shutdown", "certrenew", "echo", "hi", "&", "nosuch"}) }
+func VerifH11On() { zzSetupTotal("on", "github.com/tmpim/casket/onevent", []string{"startup", "shutdown", "certrenew", "echo", "hi", "&", "nosuch"}) }
 
-func VerifH11Pprof() { zzSetupTotal("pprof", []string{"x"}) }
+func VerifH11Pprof() { zzSetupTotal("pprof", "github.com/tmpim/casket/caskethttp/pprof", []string{"x"}) }
 
-func VerifH11Proxy() { zzSetupTotal("proxy", []string{"ca_certificates", "except", "fail_timeout", "fallback_delay", "header_downstream", "header_upstream", "health_check", "health_check_contains", "health_check_interval", "health_check_port", "health_check_timeout", "insecure_skip_verify", "keepalive", "max_conns", "max_fails", "policy", "timeout", "tls_client", "trans", "transparent", "try_duration", "try_interval", "upstream", "websocket", "without", "/", "localhost:80", "http://a", "unix:/s", "srv://a", "localhost:80-81", "0s", "1s", "-1s", "round_robin", "header", "X-A", "/h"}) }
+func VerifH11Proxy() { zzSetupTotal("proxy", "github.com/tmpim/casket/caskethttp/proxy", []string{"ca_certificates", "except", "fail_timeout", "fallback_delay", "header_downstream", "header_upstream", "health_check", "health_check_contains", "health_check_interval", "health_check_port", "health_check_timeout", "insecure_skip_verify", "keepalive", "max_conns", "max_fails", "policy", "timeout", "tls_client", "trans", "transparent", "try_duration", "try_interval", "upstream", "websocket", "without", "/", "localhost:80", "http://a", "unix:/s", "srv://a", "localhost:80-81", "0s", "1s", "-1s", "round_robin", "header", "X-A", "/h"}) }
 
-func VerifH11Push() { zzSetupTotal("push", []string{"content-encoding", "content-length", "expect", "header", "host", "method", "te", "trailer", "/", "/a", "GET", "X-A v"}) }
+func VerifH11Push() { zzSetupTotal("push", "github.com/tmpim/casket/caskethttp/push", []string{"content-encoding", "content-length", "expect", "header", "host", "method", "te", "trailer", "/", "/a", "GET", "X-A v"}) }
 
-func VerifH11Redir() { zzSetupTotal("redir", []string{"meta", "/", "/a", "301", "https://{host}", "if", "{path}", "is", "x"}) }
+func VerifH11Redir() { zzSetupTotal("redir", "github.com/tmpim/casket/caskethttp/redirect", []string{"meta", "/", "/a", "301", "https://{host}", "if", "{path}", "is", "x"}) }
 
-func VerifH11RequestId() { zzSetupTotal("request_id", []string{"X-Id", "a b"}) }
+func VerifH11RequestId() { zzSetupTotal("request_id", "github.com/tmpim/casket/caskethttp/requestid", []string{"X-Id", "a b"}) }
 
-func VerifH11Rewrite() { zzSetupTotal("rewrite", []string{"ext", "not", "r", "regexp", "to", "/", "/a", "{path}", ".html", "if", "x", "is", "(", "$1"}) }
+func VerifH11Rewrite() { zzSetupTotal("rewrite", "github.com/tmpim/casket/caskethttp/rewrite", []string{"ext", "not", "r", "regexp", "to", "/", "/a", "{path}", ".html", "if", "x", "is", "(", "$1"}) }
 
-func VerifH11Root() { zzSetupTotal("root", []string{"/srv", "."}) }
+func VerifH11Root() { zzSetupTotal("root", "github.com/tmpim/casket/caskethttp/root", []string{"/srv", "."}) }
 
-func VerifH11Status() { zzSetupTotal("status", []string{"404", "/a", "abc", "0"}) }
+func VerifH11Status() { zzSetupTotal("status", "github.com/tmpim/casket/caskethttp/status", []string{"404", "/a", "abc", "0"}) }
 
-func VerifH11Templates() { zzSetupTotal("templates", []string{"between", "ext", "path", "/", ".html", "{{", "}}"}) }
+func VerifH11Templates() { zzSetupTotal("templates", "github.com/tmpim/casket/caskethttp/templates", []string{"between", "ext", "path", "/", ".html", "{{", "}}"}) }
 
-func VerifH11Timeouts() { zzSetupTotal("timeouts", []string{"header", "idle", "none", "read", "write", "1s", "0", "-1s", "abc"}) }
+func VerifH11Timeouts() { zzSetupTotal("timeouts", "github.com/tmpim/casket/caskethttp/timeouts", []string{"header", "idle", "none", "read", "write", "1s", "0", "-1s", "abc"}) }
 
-func VerifH11Tls() { zzSetupTotal("tls", []string{"CERTIFICATE", "EC PARAMETERS", "EC PRIVATE KEY", "PRIVATE KEY", "alpn", "ask", "ca", "cert_obtained", "ciphers", "clients", "curves", "dns", "http", "https", "key_type", "load", "max_certs", "must_staple", "no_redirect", "off", "protocols", "request", "require", "self_signed", "verify_if_given", "wildcard", "a@b.c", "cert.pem", "key.pem", "tls1.2", "tls1.0", "p256", "X25519", "http2"}) }
+func VerifH11Tls() { zzSetupTotal("tls", "github.com/tmpim/casket/caskettls", []string{"CERTIFICATE", "EC PARAMETERS", "EC PRIVATE KEY", "PRIVATE KEY", "alpn", "ask", "ca", "cert_obtained", "ciphers", "clients", "curves", "dns", "http", "https", "key_type", "load", "max_certs", "must_staple", "no_redirect", "off", "protocols", "request", "require", "self_signed", "verify_if_given", "wildcard", "a@b.c", "cert.pem", "key.pem", "tls1.2", "tls1.0", "p256", "X25519", "http2"}) }
 
-func VerifH11Tryfiles() { zzSetupTotal("tryfiles", []string{"/", "except", "without", "{path}", "x"}) }
+func VerifH11Tryfiles() { zzSetupTotal("tryfiles", "github.com/tmpim/casket/caskethttp/tryfiles", []string{"/", "except", "without", "{path}", "x"}) }
 
-func VerifH11Websocket() { zzSetupTotal("websocket", []string{"bufsize", "respawn", "type", "/", "cat", "lines"}) }
+func VerifH11Websocket() { zzSetupTotal("websocket", "github.com/tmpim/casket/caskethttp/websocket", []string{"bufsize", "respawn", "type", "/", "cat", "lines"}) }
 
 // VerifH11ProxyBlock: the proxy directive with a block of two option lines over the options that
 // take durations, counts and health-check settings.
